@@ -237,7 +237,13 @@ def summarize(args, prop, results, reg, known, kmap, seed, wall, timeout_ms):
                 cs["sat"].append(ob)
             else:
                 cs["unknown"] += 1
-                if src_changed and ob["name"] in b_unit.get("discharged", []):
+                # (a baseline is only recorded by a fully green run: every obligation of a unit it lists was discharged.
+                #  The automatic clause families - atomicity on raising paths, frames, raised-only-if-specified - belong
+                #  to the contract whether or not the unchanged code produced an instance of them: a raising path that
+                #  had written nothing needed no `atomic:` instance. An instance that appears only for the changed source
+                #  and is not discharged is therefore an obligation that held before and does not hold now.)
+                auto_family = ob["clause"].startswith(("atomic:", "frame:", "raises-only:", "raises-iff:"))
+                if src_changed and (ob["name"] in b_unit.get("discharged", []) or (auto_family and b_unit.get("discharged"))):
                     # this obligation was discharged for the recorded (unchanged) source of this function and is not
                     # discharged for the changed source: a failed obligation without a counter-model
                     ob2 = dict(ob)
